@@ -15,7 +15,7 @@ THEOREMS = [{'name': f'Props.C02.{n}', 'module': M} for n in [
 # the model functions these theorems are about are EQUAL to the functions translated from /repo's source (Gen/CoreFuncs.lean)
 THEOREMS += [{'name': f'Props.CoreFuncs.{n}', 'module': 'MorphKgc.Props.CoreFuncs'} for n in ['refs_eq', 'inv_eq']]
 # the scan loops of mapping_partitioner.py, translated from /repo (Gen/PartFuncs.lean), are equal to Model.scanStep / invOf
-THEOREMS += [{'name': f'Props.PartFuncs.{n}', 'module': 'MorphKgc.Props.PartFuncs'} for n in ['partial_S_eq', 'partial_P_eq', 'partial_O_eq', 'partial_G_eq', 'maximal_S_eq', 'maximal_P_eq', 'maximal_O_eq', 'maximal_G_eq', 'maximalPass_eq', 'term_invariants_step_eq', 'sort_keys', 'keyNames_cells', 'initial_scalars', 'enforce_shapes']]
+THEOREMS += [{'name': f'Props.PartFuncs.{n}', 'module': 'MorphKgc.Props.PartFuncs'} for n in ['partial_S_eq', 'partial_P_eq', 'partial_O_eq', 'partial_G_eq', 'maximal_S_eq', 'maximal_P_eq', 'maximal_O_eq', 'maximal_G_eq', 'maximalPass_eq', 'term_invariants_step_eq', 'sort_keys', 'keyNames_cells', 'initial_scalars', 'enforce_shapes', 'genPartialStep_eq', 'partialPass_is_translated_loop', 'genMaximalStep_eq', 'maximalPass_is_translated_loop']]
 RULE = ('(I5) rule tables — parsed from generated documents and synthetic ones with equal / nested / interleaved invariants, blank nodes, '
         'typed and tagged literals, constant-only predicate/graph columns — partitioned by the real MappingPartitioner and by '
         'Model.partitionLabels, compared label by label; (oracle) generated documents x tables materialized under NO, '
